@@ -3683,6 +3683,12 @@ class CacheDataset(Dataset):
             item = self.keys().index(item)
 
         if isinstance(item, numbers.Integral):
+            if item < 0:
+                # Use one cache entry per example: ds[-1] and ds[len(ds) - 1]
+                # are the same example.
+                item = item + len(self)
+                if item < 0:
+                    raise IndexError(item - len(self))
             try:
                 return self._cache[item]
             except KeyError:
